@@ -23,7 +23,8 @@ def Entry.undoLids (last : Nat) (e : Entry) : List UUID :=
   | _, _ => []
 
 def undoOf (s : State) (lids : List UUID) : List Handle :=
-  ((lids.filterMap s.reg).filter (fun h => h.deleted || h.wip > 0)).map (fun h => { h with deleted := false, wip := 0 })
+  ((lids.filterMap s.reg).filter (fun h => h.deleted || h.wip > 0)).map
+    (fun h => { h with deleted := false, wip := if h.bothInUse then 1 else 0 })
 
 theorem walkEntry_nf (last : Nat) (hl : last < Step.deleteObsoleteEntries.ord) (e : Entry) (hc : e.step ≠ .createStore)
     (x : DState × List Ev) :
